@@ -33,6 +33,13 @@ RULE = (
     "= both ids >= 256 and colour code != 0."
 )
 ASSUMPTIONS = [
+    "every oracle parses the generic-parser (kaitai) object of a frame ONCE and hands the same object (and the same bytes object on "
+    "the raw path) to the library 3 times per entry point, Burst.from_hytera_ipsc and HyteraIPSC.from_kaitai / from_ipsc_bytes "
+    "alternating: every result must satisfy the value clauses, repeated results must equal the first, the public attribute tree "
+    "of the parsed object (bytes by content) must be unchanged after every library call (clause generic_parser_object_unchanged), "
+    "as_ipsc_bytes must give the 72 octets on every decoded object, twice in a row and again after the burst was serialised.  "
+    "bytearray / memoryview are outside the documented parameter type (bytes | IpSiteConnectProtocol); a bytearray is handed to "
+    "from_ipsc_bytes only to check that the caller's buffer is not written to (exceptions there are ignored)",
     "frame reference vp/refs/hytera_ref.py validated against 4 captured IPSC frames with documented ids / colour code / "
     "timeslot (selfcheck at start of every run); the generic parser is the kaitai class of the separately installed package "
     "okdmr.kaitai (not under test)",
@@ -196,23 +203,52 @@ def _integrity(case):
     return frame, exp
 
 
-def _decode_both(frame):
-    from okdmr.kaitai.hytera.ip_site_connect_protocol import IpSiteConnectProtocol
+def snapshot(o, depth=0):
+    """public attribute tree of an input object (bytes by content, enums by name); private attributes (kaitai's _io / _parent /
+    cached _m_* instances) are not part of the value"""
+    import enum
 
-    from okdmr.dmrlib.etsi.layer2.burst import Burst
+    if isinstance(o, (bytes, bytearray, memoryview)):
+        return ("octets", bytes(o).hex())
+    if isinstance(o, enum.Enum):
+        return ("enum", type(o).__name__, o.name)
+    if o is None or isinstance(o, (bool, int, float, str)):
+        return o
+    if isinstance(o, (list, tuple)):
+        return [snapshot(x, depth + 1) for x in o]
+    if isinstance(o, dict):
+        return {str(k): snapshot(v, depth + 1) for k, v in o.items()}
+    if hasattr(o, "__dict__") and depth < 4:
+        return {k: snapshot(v, depth + 1) for k, v in sorted(vars(o).items()) if not k.startswith("_")}
+    return type(o).__name__
 
-    raw = call(Burst.from_hytera_ipsc, frame, clause="raw_decoder_no_exception")[1]
-    k = IpSiteConnectProtocol.from_bytes(frame)
-    gen = call(Burst.from_hytera_ipsc, k, clause="generic_decoder_no_exception")[1]
-    return raw, gen
+
+class _Parsed:
+    """the generic-parser object of a frame, parsed ONCE; every library call on it goes through .call(), which compares the
+    object's public attribute tree with the snapshot taken before the first call"""
+
+    def __init__(self, frame: bytes):
+        from okdmr.kaitai.hytera.ip_site_connect_protocol import IpSiteConnectProtocol
+
+        self.obj = IpSiteConnectProtocol.from_bytes(frame)
+        self.before = snapshot(self.obj)
+        self.n_calls = 0
+
+    def call(self, fn, clause):
+        out = call(fn, self.obj, clause=clause)[1]
+        self.n_calls += 1
+        after = snapshot(self.obj)
+        if after != self.before:
+            changed = sorted(k for k in set(after) | set(self.before) if after.get(k) != self.before.get(k))
+            raise Fail("generic_parser_object_unchanged", {"after_library_call_number": self.n_calls, "changed_attributes": changed,
+                                                           "now": {k: after.get(k) for k in changed}}, {k: self.before.get(k) for k in changed})
+        return out
 
 
-def _observe(b, path: str):
-    bits = call(b.as_bits, clause=f"{path}_as_bits_no_exception")[1]
-    return {
+def _observe(b, path: str, with_as_bits: bool = True):
+    out = {
         "class": type(b).__name__,
         "payload_bits": b.full_bits.tobytes().hex(),
-        "as_bits": bits.tobytes().hex(),
         "timeslot": b.timeslot,
         "sequence_no": b.sequence_no,
         "colour_code": b.hytera_ipsc.color_code,
@@ -221,45 +257,110 @@ def _observe(b, path: str):
         "frame_destination_id": b.hytera_ipsc.destination_radio_id,
         "target_id": b.target_radio_id,
     }
+    if with_as_bits:
+        out["as_bits"] = call(b.as_bits, clause=f"{path}_as_bits_no_exception")[1].tobytes().hex()
+    return out
+
+
+def _observe_frame(h):
+    """the same observables on a HyteraIPSC object (result of HyteraIPSC.from_kaitai / from_ipsc_bytes)"""
+    return {"payload_bits": bytes(h.payload).hex(), "timeslot": {"Timeslot_1": 1, "Timeslot_2": 2}.get(h.timeslot.name), "sequence_no": h.sequence_number,
+            "colour_code": h.color_code, "frame_source_id": h.source_radio_id, "frame_destination_id": h.destination_radio_id}
+
+
+REPEATS = 3  # every input object is decoded this many times by each entry point, alternating
 
 
 def oracle_decode(case):
-    """(R) each path returns the encoded values; (D) both paths agree"""
+    """(R) each path returns the encoded values; (D) both paths agree; decoding neither alters its input object nor depends on
+    how often the same input was decoded before (same bytes object / same parsed generic-parser object, 3 times per entry
+    point, Burst.from_hytera_ipsc and HyteraIPSC.from_kaitai / from_ipsc_bytes alternating)"""
     frame, exp = _integrity(case)
-    raw, gen = _decode_both(frame)
-    obs = {"raw": _observe(raw, "raw"), "generic": _observe(gen, "generic")}
+    from okdmr.dmrlib.etsi.layer2.burst import Burst
+    from okdmr.dmrlib.hytera.hytera_ipsc import HyteraIPSC
+
     want = {
         "class": expected_class(exp), "payload_bits": exp["burst"], "timeslot": exp["ts"], "sequence_no": exp["seq"], "colour_code": exp["cc"],
         "source_id": exp["src"], "frame_source_id": exp["src"], "frame_destination_id": exp["dst"],
     }
     if exp["dst"] != 0:
         want["target_id"] = exp["dst"]
-    for path in ("raw", "generic"):
-        for k, v in want.items():
-            if obs[path][k] != v:
-                raise Fail(f"{path}_path_{k}_equals_encoded_value", obs[path][k], v)
-    for k in obs["raw"]:
-        if obs["raw"][k] != obs["generic"][k]:
-            raise Fail(f"both_paths_agree_on_{k}", {"raw": obs["raw"][k], "generic": obs["generic"][k]}, "equal")
+    keep = bytes(bytearray(frame))  # independent copy of the input octets
+    parsed = _Parsed(frame)
+    first = {}
+    for i in range(REPEATS):
+        rep = "" if i == 0 else "repeat_decode_"
+        results = [
+            ("raw", _observe(call(Burst.from_hytera_ipsc, frame, clause="raw_decoder_no_exception")[1], "raw", i == 0)),
+            ("raw", _observe_frame(call(HyteraIPSC.from_ipsc_bytes, frame, clause="raw_decoder_no_exception")[1])),
+            ("generic", _observe(parsed.call(Burst.from_hytera_ipsc, "generic_decoder_no_exception"), "generic", i == 0)),
+            ("generic", _observe_frame(parsed.call(HyteraIPSC.from_kaitai, "generic_decoder_no_exception"))),
+        ]
+        if frame != keep:
+            raise Fail("raw_input_octets_unchanged", frame.hex(), keep.hex())
+        for path, obs in results:
+            for k, v in want.items():
+                if k in obs and obs[k] != v:
+                    raise Fail(f"{path}_path_{rep}{k}_equals_encoded_value", obs[k], v)
+        if i == 0:
+            first = {"raw": results[0][1], "generic": results[2][1]}
+            for k in first["raw"]:
+                if first["raw"][k] != first["generic"][k]:
+                    raise Fail(f"both_paths_agree_on_{k}", {"raw": first["raw"][k], "generic": first["generic"][k]}, "equal")
+        else:
+            for path, obs in (results[0], results[2]):
+                for k, v in obs.items():
+                    if first[path][k] != v:
+                        raise Fail(f"{path}_path_repeat_decode_same_{k}", v, first[path][k])
+    # undocumented but plausible callers hand over a mutable buffer: whatever the decoder does with it, it must not write to it
+    buf = bytearray(frame)
+    try:
+        HyteraIPSC.from_ipsc_bytes(buf)
+    except Exception:
+        pass  # bytearray is outside the documented parameter type: not accepting it is fine
+    if bytes(buf) != keep:
+        raise Fail("raw_input_buffer_unchanged", bytes(buf).hex(), keep.hex())
+
+
+def _expect_frame(out, frame: bytes, path: str, what: str):
+    if not isinstance(out, bytes) or len(out) != 72:
+        raise Fail(f"{path}_path_{what}gives_72_octets", len(out) if hasattr(out, "__len__") else type(out).__name__, 72)
+    if out != frame:
+        diff = [i for i in range(72) if out[i] != frame[i]]
+        raise Fail(f"{path}_path_{what}equal_octets", {"differing_offsets": diff, "got": out.hex()}, frame.hex())
 
 
 def _oracle_reencode(path: str):
     def oracle(case):
+        """as_ipsc_bytes of every object decoded from the same input (3 x Burst.from_hytera_ipsc, 3 x HyteraIPSC.from_kaitai /
+        from_ipsc_bytes, alternating) reproduces the 72 octets; calling it twice gives the same octets (stable), also after the
+        burst itself was serialised"""
         frame, exp = _integrity(case)
         from okdmr.dmrlib.etsi.layer2.burst import Burst
+        from okdmr.dmrlib.hytera.hytera_ipsc import HyteraIPSC
 
-        if path == "raw":
-            b = call(Burst.from_hytera_ipsc, frame, clause="raw_decoder_no_exception")[1]
-        else:
-            from okdmr.kaitai.hytera.ip_site_connect_protocol import IpSiteConnectProtocol
-
-            b = call(Burst.from_hytera_ipsc, IpSiteConnectProtocol.from_bytes(frame), clause="generic_decoder_no_exception")[1]
-        out = call(b.hytera_ipsc.as_ipsc_bytes, clause=f"{path}_path_as_ipsc_bytes_no_exception")[1]
-        if not isinstance(out, bytes) or len(out) != 72:
-            raise Fail(f"{path}_path_reencode_gives_72_octets", len(out) if hasattr(out, "__len__") else type(out).__name__, 72)
-        if out != frame:
-            diff = [i for i in range(72) if out[i] != frame[i]]
-            raise Fail(f"{path}_path_reencode_equal_octets", {"differing_offsets": diff, "got": out.hex()}, frame.hex())
+        keep = bytes(bytearray(frame))
+        parsed = _Parsed(frame) if path == "generic" else None
+        for i in range(REPEATS):
+            rep = "reencode_" if i == 0 else "repeat_decode_reencode_"
+            if path == "raw":
+                b = call(Burst.from_hytera_ipsc, frame, clause="raw_decoder_no_exception")[1]
+                h = call(HyteraIPSC.from_ipsc_bytes, frame, clause="raw_decoder_no_exception")[1]
+            else:
+                b = parsed.call(Burst.from_hytera_ipsc, "generic_decoder_no_exception")
+                h = parsed.call(HyteraIPSC.from_kaitai, "generic_decoder_no_exception")
+            for obj in (b.hytera_ipsc, h):
+                _expect_frame(call(obj.as_ipsc_bytes, clause=f"{path}_path_as_ipsc_bytes_no_exception")[1], frame, path, rep)
+                _expect_frame(call(obj.as_ipsc_bytes, clause=f"{path}_path_as_ipsc_bytes_no_exception")[1], frame, path, "second_" + rep)
+            if i == 0:
+                call(b.as_bytes, clause=f"{path}_path_burst_as_bytes_no_exception")
+                _expect_frame(call(b.hytera_ipsc.as_ipsc_bytes, clause=f"{path}_path_as_ipsc_bytes_no_exception")[1], frame, path, "after_burst_serialised_" + rep)
+            if frame != keep:
+                raise Fail("raw_input_octets_unchanged", frame.hex(), keep.hex())
+        if parsed is not None:
+            after = snapshot(parsed.obj)
+            if after != parsed.before:
+                raise Fail("generic_parser_object_unchanged", "changed by as_ipsc_bytes / as_bytes", "unchanged")
 
     return oracle
 
@@ -389,7 +490,7 @@ def make_driver(n_quick: int, n_thorough: int):
         else:
             combos = [(s, c, ts, cc, p, f) for s in slots for c in calls for ts in (1, 2) for cc in range(16)
                       for p in sorted(ref.IPSC_PACKET_TYPES) for f in sorted(ref.IPSC_FRAME_TYPES)]
-        rounds = ctx.pick(1, 4)  # thorough: the whole product four times, each round with freshly drawn remaining fields / payloads
+        rounds = ctx.pick(1, 3)  # thorough: the whole product three times, each round with freshly drawn remaining fields / payloads
         chunks = [(i, r, combos[i::64]) for r in range(rounds) for i in range(64)]
 
         def work(chunk, t: Tally):
@@ -462,8 +563,8 @@ def make_driver(n_quick: int, n_thorough: int):
 
 
 SUBCHECKS = [
-    SubCheck("decode", oracle_decode, make_driver(14400, 600000), "raw-bytes and generic-parser decoders: values equal the encoded ones and both paths agree"),
-    SubCheck("reencode_raw", oracle_reencode_raw, make_driver(6400, 300000), "as_ipsc_bytes of the frame decoded from raw bytes reproduces the 72 octets"),
-    SubCheck("reencode_generic", oracle_reencode_generic, make_driver(6400, 300000), "as_ipsc_bytes of the frame decoded through the generic parser reproduces the 72 octets"),
+    SubCheck("decode", oracle_decode, make_driver(14400, 400000), "raw-bytes and generic-parser decoders: values equal the encoded ones and both paths agree"),
+    SubCheck("reencode_raw", oracle_reencode_raw, make_driver(6400, 200000), "as_ipsc_bytes of the frame decoded from raw bytes reproduces the 72 octets"),
+    SubCheck("reencode_generic", oracle_reencode_generic, make_driver(6400, 200000), "as_ipsc_bytes of the frame decoded through the generic parser reproduces the 72 octets"),
 ]
 PREDICATES = {}
